@@ -650,7 +650,6 @@ impl Epoch {
                     if char == '-' {
                         offset_sign = -1;
                     }
-                    prev_idx += 1;
                 }
             }
         }
